@@ -771,7 +771,7 @@ def _eval_grammar(prop: str, rng: random.Random, gname: str, gtext: str, rules_a
     lines, expect = out["lines"], out["expect"]
     ups: set = set()
     gline = "G " + P.ser_rules(md.p0.rules, ups)
-    oser = P.ser_rules(md.p1.rules, ups)
+    oser = P.ser_rules(md.p1.rules, ups, also=set(P.referenced(md.p0.rules)))
     for nm, pat in sorted(ups):
         lines.append(P.uset_line(nm, pat))
         expect.append(("setup", "ok", base))
